@@ -41,7 +41,10 @@ class C06:
     RULE = ("a case is one transfer shape (110 shapes: {BAM,RTS/CTS} x {J1939-21,-22} x 2..12 packets x responder window "
             "{1,2,3,all}) with a payload/latency draw; inside a case the fault-free run gives N bus frames and then every "
             "k in 1..N is run three times (frame k lost / originator silent from k / responder silent from k), each followed "
-            "by reconnection and a fresh transfer on the same pair; 'subruns' counts those runs; non-trivial = the case "
+            "by reconnection and a fresh transfer on the same pair; in about half of the cases the originator's application is impatient: "
+            "it has one or six further messages of the same PGN and length (always its newest value) and calls send_pgn every "
+            "0.7 / 11 / 30 / 100 ms until each is accepted - every delivery must then be exactly one of the messages sent, each at "
+            "most once (time bound and abort oracles are not applied to these cases); 'subruns' counts those runs; non-trivial = the case "
             "executed at least one faulty sub-run in which the transfer did not complete; distinct = distinct (shape, draw); "
             "exhaustive = every k and fault kind of every listed shape")
     ASSUMPTIONS = [
@@ -67,7 +70,7 @@ class C06:
             # an impatient application: it has a second message of the same PGN and length and calls send_pgn every so many
             # seconds until the call is accepted (so the next transfer starts as soon as the originator has given the first one up,
             # possibly before the responder has)
-            st.sampled_from([None, None, 0.03, 0.1]))
+            st.sampled_from([None, None, 0.03, 0.1, [0.03, 6], [0.1, 6], [0.011, 6], [0.0007, 6], [0.0007, 6]]))
 
     def examples(self, tier):
         return 60 if tier == "quick" else 20000
@@ -80,7 +83,7 @@ class C06:
                             lat=LAT_DEFAULT, eps=[0.0, 1e-5],
                             sas=[[0x21, 0x42], [0x00, 0x42], [0x21, 0x00], [0xFD, 0x01]][(i // 3) % 4],
                             app_timer=[None, None, [2.0, "O"], None, [2.0, "R"], [0.7, "both"]][i % 6],
-                            retry=[None, None, None, 0.1, None][i % 5]))
+                            retry=[None, None, None, 0.1, None, None, [0.03, 6], None, [0.0007, 6]][i % 9]))
         return out
 
     def exhaustive(self, tier):
@@ -127,21 +130,31 @@ class C06:
             res = {}
             w.at(0.05, lambda: res.__setitem__("r1", o.cas["o"].send_pgn(0, PF, da, 6, list(data))))
             retry = p.get("retry")
+            # (a number: one further message; [period, n]: the application always sends its newest value - n further messages,
+            # each as soon as send_pgn accepts again)
+            retry_n = 1
+            if isinstance(retry, (list, tuple)):
+                retry, retry_n = retry
             data_b = W.make_payload({"n": size, "cls": "arith", "a": p["a"] + 3, "b": 11})
             if bytes(data_b) == bytes(data):
                 data_b[0] ^= 0x55
+            # (position-coded contents: a repeated or misplaced packet shows even inside one message)
+            stream = [list(data_b)] + [W.make_payload({"n": size, "cls": "pos", "a": (0x25 * i + 0x41) & 0xFF, "seg": seg}) for i in range(1, retry_n)]
+            stream = [m for m in stream if bytes(m) != bytes(data)]
+            accepted = []
             if retry:
                 def poll():
-                    if "rb" in res or res.get("stop_poll"):
+                    if res.get("stop_poll") or len(accepted) >= len(stream):
                         return
                     try:
-                        ok = o.cas["o"].send_pgn(0, PF, da, 6, list(data_b))
+                        ok = o.cas["o"].send_pgn(0, PF, da, 6, list(stream[len(accepted)]))
                     except Exception as e:  # noqa
                         ok = "EXC:%r" % (e,)
-                    if ok is False and w.sim.now < w.t0 + 12.0:
+                    if ok is True:
+                        accepted.append(w.sim.now)
+                    if ok in (True, False) and w.sim.now < w.t0 + (14.0 if retry >= 0.01 else 5.0):
                         w.at(w.sim.now - w.t0 + retry, poll)
-                    else:
-                        res["rb"] = ok
+                    res["rb"] = ok if "rb" not in res or ok is not False else res["rb"]
                 w.at(0.05 + retry, poll)
             bound = 1.25 + (3.0 if (fd and p["mode"] == "rts") else 0.0) + 0.1
             # run until the exchange has been quiet for the bound
@@ -165,6 +178,8 @@ class C06:
             obs["live1"] = w.liveness_problems()
             obs["data"] = bytes(data)
             obs["data_b"] = bytes(data_b)
+            obs["stream"] = [bytes(m) for m in stream]
+            obs["n_accepted"] = len(accepted)
             obs["rb"] = res.get("rb")
             res["stop_poll"] = True
             # reconnect and follow-up on the same pair
@@ -209,20 +224,22 @@ class C06:
             # the impatient application's second message (same PGN, same length): each delivery is exactly one of the two payloads
             site += "|retry"
             db = obs["data_b"]
+            allowed = [data] + list(obs.get("stream") or [db])
             for d in got:
-                if d[5] != data and d[5] != db:
+                if d[5] not in allowed:
                     V("corrupt-mixed", "receiver got %d bytes that are neither the first message nor the application's second one "
                       "(the second send_pgn call was accepted: %r); first difference to the first message at offset %d, to the second at "
                       "offset %d" % (len(d[5]), obs.get("rb"),
                                      next((i for i, (a, b) in enumerate(zip(d[5], data)) if a != b), min(len(d[5]), len(data))),
                                      next((i for i, (a, b) in enumerate(zip(d[5], db)) if a != b), min(len(d[5]), len(db)))), site)
             na, nb_ = sum(1 for d in got if d[5] == data), sum(1 for d in got if d[5] == db)
-            if na > 1 or nb_ > 1:
-                V("delivered-twice", "payloads delivered %d / %d times" % (na, nb_), site)
+            cnt = [sum(1 for d in got if d[5] == m) for m in allowed]
+            if any(c > 1 for c in cnt):
+                V("delivered-twice", "payloads of the %d messages delivered %r times" % (len(allowed), cnt), site)
             completed = na == 1
-            if fault is None and (nb_ != 1 or obs.get("rb") is not True):
-                V("baseline-not-delivered", "fault-free: the application's second message (send_pgn -> %r) was delivered %d times" %
-                  (obs.get("rb"), nb_), site)
+            if fault is None and (cnt[1:obs.get("n_accepted", 1) + 1] != [1] * obs.get("n_accepted", 1) or obs.get("n_accepted", 1) < 1):
+                V("baseline-not-delivered", "fault-free: the application's %d further accepted message(s) (last send_pgn -> %r) were "
+                  "delivered %r times" % (obs.get("n_accepted", 0), obs.get("rb"), cnt[1:]), site)
         elif len(got) > 1:
             V("delivered-twice", "payload delivered %d times" % len(got), site)
         elif len(got) == 1:
